@@ -505,7 +505,10 @@ impl Store {
     #[tracing::instrument(skip(self), fields(id = %id.to_string()))]
     pub fn remove(&self, id: &Scru128Id) -> Result<(), crate::error::Error> {
         let Some(frame) = self.get(id) else {
-            // Already deleted
+            // Already deleted - possibly by a removal that is committed but not synced yet (the
+            // same request from another client, the collector). The caller is told the frame
+            // is gone, so it has to be durably gone.
+            self.keyspace.persist(fjall::PersistMode::SyncAll)?;
             return Ok(());
         };
 
